@@ -17,10 +17,14 @@ CONSTANTS Ctx <- McCtx
  IAmt = {}
  BoxFrom = {}
  BoxTo = {}
+ RewFrom = {}
+ RewTerms = {}
+ RewAmt = {}
+ EmptyOK = FALSE
  MaxTx = 3
  MaxBlk = 2
  MaxTot = 4
 VIEW View
-INVARIANTS NonNegative Conservation VotesAtBoundary SupplyEqualsEquity NothingForbiddenIncluded
-PROPERTIES GasWithinLimit NotIncludedIsFree OnlyOwnEquityDecreases SupplyChangesOnlyByIssuerOrHolder FrozenDoesNotMove
+INVARIANTS NonNegative Conservation DepositsBacked VotesAtBoundary SupplyEqualsEquity NothingForbiddenIncluded
+PROPERTIES EndOfBlockIssuesTheReward GasWithinLimit NotIncludedIsFree OnlyOwnEquityDecreases SupplyChangesOnlyByIssuerOrHolder FrozenDoesNotMove
 CHECK_DEADLOCK FALSE
